@@ -4,6 +4,7 @@ import BddProofs.TotalQuery
 import BddProofs.PathsSum
 import BddProofs.Init
 import BddProofs.Bits
+import BddProofs.DriverQuery
 /-! # C14 — `one_sat` and `paths` describe exactly the satisfying set
 
 `Sat e p`: the assignment `e` satisfies every signed literal of `p`.  `paths` is the explicit-stack
@@ -83,6 +84,15 @@ theorem C14_literal_words (v : BitVec 32) (h1 : 1 ≤ v.toNat) (h2 : v.toNat ≤
   ⟨⟨(Bits.lit_pos_roundtrip v h1 h2).2.2.2, (Bits.lit_pos_roundtrip v h1 h2).1, (Bits.lit_pos_roundtrip v h1 h2).2.2.1⟩,
    ⟨(Bits.lit_neg_roundtrip v h1 h2).2.2.2, (Bits.lit_neg_roundtrip v h1 h2).1, (Bits.lit_neg_roundtrip v h1 h2).2.2.1⟩⟩
 
+/-- the same through the dispatcher the model driver really runs for queries: the cubes an accepted
+`paths` query returns cover exactly the satisfying set of the function its handle denotes, each assignment
+once, in increasing variable order — no hypothesis about the handle left -/
+theorem C14_driver_reply {fuel : Nat} {s : St} {f : Ref} {out : List (List Int)} (hg : Good s)
+    (hx : execQuery fuel s (.paths f) = .cubes (some out)) :
+    ∃ φ, Valid s.nodes f φ ∧ (∀ e, out.countP (Sat e) = if φ e then 1 else 0) ∧
+      ∀ q, q ∈ out → List.Pairwise (fun a b : Int => a.natAbs < b.natAbs) q :=
+  execQuery_paths hg hx
+
 end P
 #print axioms P.C14_one_sat_none
 #print axioms P.C14_one_sat_some
@@ -94,3 +104,4 @@ end P
 #print axioms P.C14_answers_survive_history
 #print axioms P.C14_lazy_iterator_is_snapshot
 #print axioms P.C14_literal_words
+#print axioms P.C14_driver_reply
